@@ -175,8 +175,7 @@ extern "C" {
                 *ref.runtime, std::string_view(contents, length), { "dllexports"sv, {} });
 
             if (!ppedStr.has_value())
-            {
-                ref.logger->callback(ref.logger->user_data, NULL, -1, ppedStr->data(), ppedStr->length());
+            { // there is no preprocessed text to hand out; the diagnostics were delivered through the logger already
                 return preprocessing_failed;
             }
             auto success = ref.runtime->parser_config().parse(ref.runtime->confighost(), *ppedStr, { "dllexports"sv, {} });
@@ -212,8 +211,7 @@ extern "C" {
                 *ref.runtime, std::string_view(code, length), { "dllexports"sv, {} });
 
             if (!ppedStr.has_value())
-            {
-                ref.logger->callback(ref.logger->user_data, call_data, -1, ppedStr->data(), ppedStr->length());
+            { // there is no preprocessed text to hand out; the diagnostics were delivered through the logger already
                 return preprocessing_failed;
             }
             switch (type)
